@@ -14,7 +14,12 @@ what pymtl3 did).
   3. code -> spec: the observed outcomes and, for the simulated variants, the value of every net
      member after sim_eval_combinational() and sim_tick() under DefaultPassGroup with random
      inputs, are validated by ElabTrace (NetCoherent: member value = writer value).
-  4. canaries: swapped writer, dropped member, flipped member value, accepted-illegal.
+  4. canaries: swapped writer, dropped member, flipped member value, rejected-legal.
+C08's premise is a design without defects: designs Elab.tla classifies as defective (two drivers of
+a bit, no driver, loop, port rule, ...) are classified (they exercise the Conflict / Stuck actions)
+but not elaborated here -- whether pymtl3 rejects them is C09's subject.  A legal design that
+elaborate() rejects (in some or all statement orders) has no nets, so it is reported here too,
+under the same key as in C09.
 
 NOTE: value views are read back through pymtl3's own Bits slicing / struct field access (C05/C06
 are the properties that bind those); designs above the variant cap are sampled, not exhausted;
@@ -46,6 +51,10 @@ def grid(tier):
         ds.append(g.chain_design(c, R.choice(["flat", "down", "up"]),
                                  R.choice(["in", "in", "const", "blk", "lam", "ff", "direct"])))
     ds += g.random_designs(130 if quick else 2200, R, mut_rate=0.4)
+    # the designs with connections of C09's grid: its legal cells get their nets, writers and
+    # simulated values checked here (C09 itself only looks at accept / reject / error class)
+    c09 = [d for d in g.c09_grid() + g.c09_extras() if any(st["k"] == "c" for st in d.stmts)]
+    ds += c09 if not quick else [c09[i] for i in sorted(R.sample(range(len(c09)), 90))]
     # drop duplicates (same canonical text)
     seen, out = set(), []
     for d in ds:
@@ -90,7 +99,7 @@ def _canaries(res, info):
         can.append(t)
         kinds.append(kind)
         # the Python-side comparison must flag the same corruptions
-        if kind in (0, 1, 3) and g.judge(D[i], exp[i], ev["out"], ev["nets"]) is None:
+        if kind in (0, 1, 3) and g.judge(D[i], exp[i], ev["out"], ev["nets"], "C08") is None:
             raise MachineryError("replay canary (kind %d) not flagged by the comparison with Elab's result" % kind)
     _, cv = tlc.validate_traces("ElabTrace", {"traces": can})
     acc = [(i, kinds[i]) for i, v in enumerate(cv) if v[0] == "ok"]
@@ -104,7 +113,7 @@ def run(res, tier):
     designs, ncells = grid(tier)
     cap = 48 if quick else 384
     with scratch():
-        info = g.check_designs(res, designs, cap=cap, nsim=2 if quick else 4, ncyc=3 if quick else 5,
+        info = g.check_designs(res, designs, prop="C08", cap=cap, nsim=2 if quick else 4, ncyc=3 if quick else 5,
                                hashseeds=[0, 1, 2, 3] if quick else list(range(16)), tag="c08",
                                cross_seed=12 if quick else 120)
     for a in g.ELAB_ACTIONS:
@@ -114,14 +123,15 @@ def run(res, tier):
         if sum(r.coverage.get(a, (0, 0))[1] for r in info["trace_runs"]) == 0 and info["trace_runs"][0].coverage:
             raise MachineryError("action %s of ElabTrace.tla never taken (vacuous)" % a)
     classes = {}
-    for e in info["exp"]:
+    for e in info["exp_all"]:
         for d in e["defects"]:
             classes[d] = classes.get(d, 0) + 1
     res.note("designs_per_defect_class", dict(sorted(classes.items())))
-    nlegal = res.notes.get("legal_designs", 0)
+    nlegal = len(info["designs"])
     if nlegal * 4 < len(designs):
         raise MachineryError("only %d of %d generated designs are legal: the nets/writers comparison would be "
                              "nearly vacuous" % (nlegal, len(designs)))
+    designs = info["designs"]
     nsim = sum(1 for t in info["traces"] for e in t["ev"] if e["k"] == "sim")
     res.note("simulation_observations", nsim)
     if nsim == 0 and not res.violations:
@@ -141,6 +151,8 @@ def run(res, tier):
              % ncells)
     res.assume("designs whose permutations x flips exceed the cap (%d) are sampled (identity and reversal always "
                "included)" % cap)
-    res.assume("connecting the same pair twice and nets with two bit-overlapping members are shapes the statement "
-               "is silent about: elaboration outcomes are only recorded; NetCoherent is still checked when they simulate")
+    res.assume("two overlapping members of one signal that are both driven by one net are two drivers of the shared "
+               "bits (a MultiWriter defect, C09); connecting the same pair twice, and a net one of whose members "
+               "overlaps the net's own writer, are shapes the statement is silent about: if they elaborate, nets and "
+               "writers are compared but NetCoherent is not required of the self-overlapping net")
     res.assume("member values are read through pymtl3's Bits slicing / struct field access")
